@@ -31,6 +31,7 @@ def obj_fields(rng, nobj, truthy_only=False, cls_of=None):
         "ref": {"t": "obj", "v": rng.randint(1, nobj)},
         "refs": {"t": "list", "v": [{"t": "obj", "v": rng.randint(1, nobj)} for _ in range(nref)]},
         "pairs": {"t": "list", "v": [{"t": "tuple", "v": [iv(k) for k in rng.choice(TUPS)]} for _ in range(rng.randint(0, 2))]},
+        "d": {"t": "dict", "v": [[{"t": "str", "v": [1]}, iv(rng.choice(ints))], [{"t": "str", "v": [2]}, iv(rng.choice(ints))]]},
     }
 
 
@@ -53,6 +54,7 @@ def covering_world(nobj=9, cls="A"):
             "ref": {"t": "obj", "v": (k * 2 + 1) % nobj + 1},
             "refs": {"t": "list", "v": [{"t": "obj", "v": (k + j) % nobj + 1} for j in range(k % 3)]},
             "pairs": {"t": "list", "v": [{"t": "tuple", "v": [iv(j) for j in TUPS[(k + j2) % len(TUPS)]]} for j2 in range(k % 3)]},
+            "d": {"t": "dict", "v": [[{"t": "str", "v": [1]}, iv(m)], [{"t": "str", "v": [2]}, iv(n)]]},
         }})
     return {"objs": objs}
 
